@@ -76,6 +76,21 @@ func c06Build(w *world.World, it c06Item, nonce uint64, base *big.Int) []byte {
 		}
 		return w.CosmosTx(a, accNum, seq, gas, fee, msg)
 	}
+	tx, from, emptyFrom := c06BuildEth(w, it, nonce, base, big.NewInt(0))
+	bz, err := wrapEthFrom(w, tx, from, emptyFrom)
+	if err != nil {
+		// the envelope itself could not be built (e.g. message refuses the tx): offer raw garbage derived from the case
+		return []byte("unbuildable:" + err.Error())
+	}
+	return bz
+}
+
+// c06BuildEth builds the signed (or tampered) Ethereum transaction of an item for the given nonce: the wallet it.Sender signs;
+// price is the legacy gas price / the dynamic fee cap, tip the dynamic tip cap. It returns the transaction, the declared
+// sender of the variant and whether the From field is to be left empty.
+func c06BuildEth(w *world.World, it c06Item, nonce uint64, base, tip *big.Int) (*ethtypes.Transaction, common.Address, bool) {
+	a := w.Wallets[it.Sender]
+	other := w.Wallets[(it.Sender+1)%len(w.Wallets)]
 	var to common.Address
 	var toPtr *common.Address = &to
 	var data []byte
@@ -120,7 +135,7 @@ func c06Build(w *world.World, it c06Item, nonce uint64, base *big.Int) []byte {
 	}
 	var td ethtypes.TxData
 	if it.TxType == "dynamic" {
-		td = &ethtypes.DynamicFeeTx{ChainID: chainID, Nonce: n, GasTipCap: big.NewInt(0), GasFeeCap: base, Gas: gas, To: toPtr, Value: value, Data: data}
+		td = &ethtypes.DynamicFeeTx{ChainID: chainID, Nonce: n, GasTipCap: tip, GasFeeCap: base, Gas: gas, To: toPtr, Value: value, Data: data}
 	} else {
 		td = &ethtypes.LegacyTx{Nonce: n, GasPrice: base, Gas: gas, To: toPtr, Value: value, Data: data}
 	}
@@ -138,7 +153,7 @@ func c06Build(w *world.World, it c06Item, nonce uint64, base *big.Int) []byte {
 	v, r, s := tx.RawSignatureValues()
 	rebuild := func(v, r, s *big.Int, val *big.Int) *ethtypes.Transaction {
 		if it.TxType == "dynamic" {
-			return ethtypes.NewTx(&ethtypes.DynamicFeeTx{ChainID: chainID, Nonce: n, GasTipCap: big.NewInt(0), GasFeeCap: base, Gas: gas, To: toPtr, Value: val, Data: data, V: v, R: r, S: s})
+			return ethtypes.NewTx(&ethtypes.DynamicFeeTx{ChainID: chainID, Nonce: n, GasTipCap: tip, GasFeeCap: base, Gas: gas, To: toPtr, Value: val, Data: data, V: v, R: r, S: s})
 		}
 		return ethtypes.NewTx(&ethtypes.LegacyTx{Nonce: n, GasPrice: base, Gas: gas, To: toPtr, Value: val, Data: data, V: v, R: r, S: s})
 	}
@@ -160,12 +175,7 @@ func c06Build(w *world.World, it c06Item, nonce uint64, base *big.Int) []byte {
 	case "payload-tamper":
 		tx = rebuild(v, r, s, new(big.Int).Add(value, one))
 	}
-	bz, err := wrapEthFrom(w, tx, from, it.Variant == "from-empty")
-	if err != nil {
-		// the envelope itself could not be built (e.g. message refuses the tx): offer raw garbage derived from the case
-		return []byte("unbuildable:" + err.Error())
-	}
-	return bz
+	return tx, from, it.Variant == "from-empty"
 }
 
 func cosmosTxSignedBy(w *world.World, declared, signerKey *world.Acct, accNum, seq, gas uint64, fee *big.Int, chainID string, msgs ...sdk.Msg) []byte {
@@ -429,9 +439,13 @@ func runC06(replay string) int {
 	run.Assumptions = []string{
 		"authorisation of each generated transaction is known by construction (which key signed which payload for which chain id and nonce)",
 		"the s-malleated twin of a valid signature carries no expectation on admission (the property allows either), only sequence accounting",
+		"routing part: a fully authorised Ethereum payload (protected for this chain, signed by the declared sender, nonce = sequence) that arrives nested in a Cosmos-lane transaction carries no expectation on acceptance (C07 forbids it, C06 does not); it must still execute at most once and move the signer's nonce by exactly one when it executes",
 	}
 	if replay != "" {
 		return replayCase(run, replay, func(raw json.RawMessage) []ev.Finding {
+			if fs, ok := c06RouteReplay(raw); ok {
+				return fs
+			}
 			var c c06Case
 			if err := json.Unmarshal(raw, &c); err != nil {
 				fmt.Fprintln(os.Stderr, err)
@@ -443,7 +457,9 @@ func runC06(replay string) int {
 		})
 	}
 	cases := c06Cases(run.Thorough())
+	routeCases := c06RouteCases(run.Thorough())
 	run.Sharded(Shards(), func(shard, n int) {
+		c06RouteShard(run, routeCases, shard, n)
 		for i, c := range cases {
 			if i%n != shard {
 				continue
@@ -473,10 +489,11 @@ func runC06(replay string) int {
 		}
 	})
 	run.Coverage["states"] = int(run.Counter("transitions")) + 1
-	run.Coverage["evaluations"] = len(cases)
+	run.Coverage["evaluations"] = len(cases) + len(routeCases)
+	run.Coverage["routing_cases"] = len(routeCases)
 	run.Coverage["exhaustive"] = true
 	run.Coverage["max_depth"] = 3
-	run.Coverage["rule"] = fmt.Sprintf("A: 8 tx kinds (transfer, revert, out-of-gas, value too high, block-gas-exhausting, create, reverting create, create with unaffordable endowment) × %d adversarial Ethereum encodings × {legacy, dynamic-fee} (+ %d Cosmos variants) at every position of 6 block shapes; B: byte-exact replays of every accepted tx kind at 7 later positions (same block, next block, two blocks later) and after every second tx kind. Every history with a rejected item is run twice (with / without the rejected items) and the AppHashes compared. distinct_nontrivial = histories containing ≥1 rejected item", len(c06EthVariants), len(c06CosmosVariants))
+	run.Coverage["rule"] = fmt.Sprintf("A: 8 tx kinds (transfer, revert, out-of-gas, value too high, block-gas-exhausting, create, reverting create, create with unaffordable endowment) × %d adversarial Ethereum encodings × {legacy, dynamic-fee} (+ %d Cosmos variants) at every position of 6 block shapes; B: byte-exact replays of every accepted tx kind at 7 later positions (same block, next block, two blocks later) and after every second tx kind. Every history with a rejected item is run twice (with / without the rejected items) and the AppHashes compared. distinct_nontrivial = histories containing ≥1 rejected item. ", len(c06EthVariants), len(c06CosmosVariants)) + c06RouteRule(run.Thorough())
 	return run.Finish()
 }
 
